@@ -423,6 +423,8 @@ async def async_execute(
                 ALL_COMPLETED, graph, conc_futures, conc_done, conc_running, runnable_xns_ids
             )
 
+    if _verif.ENABLED:
+        _verif.emit("pool_exit", graph=graph)
     executor.__exit__(None, None, None)
     if _verif.ENABLED:
         _verif.emit("exec_end", graph=graph, results=results)
